@@ -120,12 +120,14 @@ CHECKS = {
    design='4/C10', technique='symbolic execution of the real async stack from MIR under an explicit-state scheduler with partial-order reduction; SMT decides data; native replay over a fake node',
    note=TRUST + '; bech32 / SHA-256 / secp256k1 are an uninterpreted, functionally consistent oracle.'),
  'C17': dict(category='model_checking',
-   text='Clause (a) only: the real MultiLineCodec (built through its own Default impl, so hidden decoder state is included) is driven like FramedRead drives it on every stream of up to 7 (quick) / 9 (thorough) bytes '
+   text='(a) the real MultiLineCodec (built through its own Default impl, so hidden decoder state is included) is driven like FramedRead drives it on every stream of up to 7 (quick) / 9 (thorough) bytes '
         'over an alphabet that contains everything the decoder distinguishes, under every partition into up to 3 / 4 chunks (including splits inside the separator and inside a multi-byte character): the frames, '
         'the leftover and the error outcome equal one-shot reference decoding; a None result leaves the buffer untouched; encode appends exactly line + two newlines. '
-        'Clauses (b) one reply per request id and (c) non-interleaved writes are NOT decided (see DESIGN.md section 6): the driver loop is not encoded.',
-   design='4/C17', technique='symbolic execution of rustc MIR over symbolic byte streams and chunkings, SMT (z3), exhaustive within the byte bound, native replay',
-   note=TRUST + '; tokio-util FramedRead contract; bytes contracts.'),
+        '(b, c) the real PluginDriver::run / dispatch_one / spawned per-request tasks / logging::start_writer run from MIR under the explicit-state scheduler with 2 (3) concurrent requests whose handlers complete in every order '
+        'with Ok or Err and 1 (2) concurrent log entries: at quiescence every request id has exactly one flushed reply with result xor error, and every sink operation happens under the output mutex with no other writer between a feed and its flush. '
+        'Counterexamples are replayed with the real plugin binary (burst of requests over stdin, replies parsed from stdout).',
+   design='4/C17', technique='symbolic execution of rustc MIR: codec over symbolic byte streams and chunkings decided by SMT (z3); driver loop under an explicit-state scheduler over all interleavings within the bound; native replay',
+   note=TRUST + '; tokio-util FramedRead / FramedWrite + JsonCodec contracts; bytes contracts; serde_json::Value contract.'),
  'C19': dict(category='proof',
    text='The lowered coroutine of async main is executed with the six integer options as symbolic i64 values and the flags as symbolic booleans (get_info, block watcher start and e-mail setup through their real code against the node model): '
         'the init acknowledgement (cp.start) is reached iff every integer is in the range of its target type and policy delta > safety delta; when reached, the HtlcManagerParams and the provider hold, term for term, '
